@@ -1,4 +1,5 @@
 """C12 — push evaluation: kind priority, first match, own events, disabled rules, condition dispatch, operator table, key escaping order."""
+import re
 from .. import dex as D, world as W, mir as M, authmodel as A
 from . import util as U
 
@@ -255,6 +256,64 @@ def run(ctx):
                 ctx.check(fields <= {"rule_id"} and "rule_id" in fields, "C12.keys", f"C12.keys:{ty}:{tr.rsplit('::', 1)[-1]}", w.where(fn),
                           bad_msg=f"{p} reads fields {sorted(fields)} (uniqueness per kind must depend on rule_id only)")
     ctx.floor("key impls", n, 6)
+    # ---- word-mode glob: chunking of the pattern ---------------------------------------------------------------------------------
+    ctx.rule("C12.word-chunks", "matches_word splits the pattern into maximal runs of literal characters (regex-escaped) and maximal runs of wildcards "
+                                "(translated by wildcards_to_regex): checked by unrolling the loop over char_indices for every sequence of up to three "
+                                "literal/wildcard characters; a wildcard never ends a wildcard run")
+    fw = w.fn("<str as ruma_common::push::condition::StrExt>::matches_word")
+    dexw = D.Dex(w.lookup, adt_discr=w.adt_discr, unroll=3, max_paths=600000, effects=lambda n: n.endswith("regex::escape") or n.endswith("wildcards_to_regex") or n.endswith("::escape"))
+    got = {}
+    for pth in dexw.paths(fw, [D.sym("self"), D.sym("pattern")]):
+        conds = [(D.show_atom(a), t) for a, t in pth.conds]
+        nexts = [(a, t) for a, t in conds if a.startswith("Iterator::next(") and "char_indices(pattern)" in a and " is " in a]
+        if pth.kind != "ret" or not nexts or not nexts[-1][0].endswith(" is None"):
+            continue
+        n_el = sum(1 for a, t in nexts if a.endswith(" is Some") and t)
+        cls, feasible = [], True
+        for k in range(n_el):
+            tag = "" if k == 0 else f"#{k + 1}"
+            el = r"char_indices\(pattern\)\)\)" + re.escape(tag) + r"\.Some\.0"
+            isw = [t for a, t in conds if re.search(el + r"\.1==", a)]
+            zero = [t for a, t in conds if re.search(el + r"\.0==0$", a)]
+            # char_indices yields offset 0 for the first character and a larger offset afterwards
+            if any(z != (k == 0) for z in zero):
+                feasible = False
+            cls.append("W" if any(isw) else "L")
+        if not feasible:
+            continue
+        chunks = "".join("E" if e[0].endswith("escape") else "R" for e in pth.effects)
+        got.setdefault("".join(cls), set()).add(chunks)
+    ctx.floor("character-class sequences unrolled", len(got), 12)
+    for seq, outs in sorted(got.items()):
+        want = "".join(("R" if c == "W" else "E") for j, c in enumerate(seq) if j == 0 or seq[j - 1] != c) or "E"
+        ctx.check(outs == {want}, "C12.word-chunks", f"C12.word-chunks:{seq or 'empty'}", w.where(fw),
+                  ok_msg=f"chunks {want}",
+                  bad_msg=f"a pattern of the shape {seq} (L literal, W wildcard) is cut into chunks {sorted(outs)} (E escaped literal, R wildcard regex), expected {want}: "
+                          f"the second wildcard of a run ends the run and the rest is escaped as literal text (`j??rg` compiles to `j.{{1}}\\?rg`)")
+    # ---- word-mode glob: flag scopes of the regex template ----------------------------------------------------------------------------
+    ctx.rule("C12.word-regex", "the regex template of matches_word: every \\W / \\b of the boundary groups is inside a `-u` (ASCII) scope, as the specification "
+                               "defines word characters as [A-Za-z0-9_], and the translated glob is substituted OUTSIDE any `-u` scope, so that `?` (a `.`) "
+                               "matches one character, not one byte")
+    tmpl = None
+    for body in M.all_bodies(fw):
+        for b in body["blocks"]:
+            for st in b["s"]:
+                if st[0] == "=" and st[2][0] == "use" and st[2][1].get("k") == "const" and str(st[2][1].get("ty", "")).startswith("&[u8;") and isinstance(st[2][1].get("v"), list):
+                    pieces = decode_format_template(st[2][1]["v"])
+                    if pieces and any("\\W" in x or "\\b" in x for x in pieces if isinstance(x, str)):
+                        tmpl = pieces
+    if tmpl is None or tmpl.count(None) != 1:
+        ctx.unrecognised("C12.word-regex", "C12.word-regex:template", w.where(fw), f"the format template of the word regex could not be read ({tmpl})")
+    else:
+        k = tmpl.index(None)
+        prefix, suffix = "".join(x for x in tmpl[:k]), "".join(x for x in tmpl[k + 1:])
+        scopes = regex_flag_scopes(prefix + "\x00" + suffix)       # \x00 marks the placeholder
+        ctx.check(scopes is not None and scopes["placeholder_unicode"], "C12.word-regex", "C12.word-regex:glob-in-unicode-scope", w.where(fw),
+                  bad_msg=f"in `{prefix}{{}}{suffix}` the translated glob is inside a `-u` scope: `.` then matches a single byte, so `j?rg` no longer matches `jörg` in "
+                          f"content.body / display names")
+        ctx.check(scopes is not None and scopes["boundaries"] >= 2 and scopes["boundaries_ascii"] == scopes["boundaries"], "C12.word-regex", "C12.word-regex:ascii-boundaries", w.where(fw),
+                  bad_msg=f"in `{prefix}{{}}{suffix}` {0 if scopes is None else scopes['boundaries'] - scopes['boundaries_ascii']} of the \\W/\\b boundary tests are Unicode-aware: "
+                          f"the specification's word characters are [A-Za-z0-9_] only")
     ctx.assumptions += ["glob / word-boundary / regex semantics (matches_word, wildcards_to_regex, WildMatch) are value-level and not decided"]
     ctx.samples += [{"iterator": "RulesetIter", "order": [k for k, _ in KINDS]}]
 
@@ -279,3 +338,67 @@ def collect_fields(node, out):
     elif isinstance(node, list):
         for v in node:
             collect_fields(v, out)
+
+
+def decode_format_template(bs):
+    """Pieces of a `format_args!` template as rustc (this toolchain) encodes it in a byte string: a length byte (< 0x80) followed by that many
+    literal bytes, 0xC0 for a plain `{}` placeholder, 0 to end. Returns [str | None(placeholder)] or None if the encoding is not understood."""
+    out, i = [], 0
+    while i < len(bs):
+        b = bs[i]
+        if b == 0:
+            return out if i == len(bs) - 1 else None
+        if b < 0x80:
+            if i + 1 + b > len(bs):
+                return None
+            try:
+                out.append(bytes(bs[i + 1:i + 1 + b]).decode())
+            except UnicodeDecodeError:
+                return None
+            i += 1 + b
+        elif b == 0xC0:
+            out.append(None)
+            i += 1
+        else:
+            return None
+    return None
+
+
+def regex_flag_scopes(rx):
+    """Scan a (Rust regex syntax) pattern: is the placeholder (\\x00) in a Unicode scope, and how many \\W / \\b escapes are in a `-u` scope."""
+    stack = [True]          # unicode flag per open group
+    i, n = 0, len(rx)
+    res = {"placeholder_unicode": None, "boundaries": 0, "boundaries_ascii": 0}
+    in_class = False
+    while i < n:
+        c = rx[i]
+        if c == "\x00":
+            res["placeholder_unicode"] = stack[-1]
+        elif c == "\\" and i + 1 < n:
+            if rx[i + 1] in "Wb" and not in_class:
+                res["boundaries"] += 1
+                res["boundaries_ascii"] += (not stack[-1])
+            i += 1
+        elif in_class:
+            in_class = c != "]"
+        elif c == "[":
+            in_class = True
+        elif c == "(":
+            uni = stack[-1]
+            m = re.match(r"\(\?([a-zA-Z]*)(?:-([a-zA-Z]*))?([:)])", rx[i:])
+            if m:
+                on, off, end = m.group(1) or "", m.group(2) or "", m.group(3)
+                new = False if "u" in off else (True if "u" in on else uni)
+                if end == ")":
+                    stack[-1] = new          # bare flag group: applies to the rest of the enclosing group
+                else:
+                    stack.append(new)
+                i += len(m.group(0)) - 1
+            else:
+                stack.append(uni)
+        elif c == ")":
+            if len(stack) == 1:
+                return None
+            stack.pop()
+        i += 1
+    return res if len(stack) == 1 and res["placeholder_unicode"] is not None else None
